@@ -138,7 +138,7 @@ func expand(ex *Executor, p *plan.Plan, res *Result, agg *Agg) []*plan.Plan {
 		ro := out.R[idx]
 		for si, s := range ro.Srcs {
 			for _, k := range pickCalls(s.Calls, e.Full, nil, r) {
-				for _, kind := range []string{"err0", "errn"} {
+				for _, kind := range []string{"err0", "errn", "err0t"} {
 					q := p.Clone()
 					q.Enum = nil
 					q.Readers[idx].Srcs[si].Faults = append(append([]plan.RFault(nil), p.Readers[idx].Srcs[si].Faults...), plan.RFault{Call: k, Kind: kind})
